@@ -456,16 +456,18 @@ class Tracker(object):
                     and isinstance(n.ast.targets[0], ast.Name):
                 name = n.ast.targets[0].id
                 v = n.ast.value
-                if isinstance(v, ast.Constant) and v.value in (None, False, 0, True):
-                    self._eff[n] = {name: bool(v.value)}
+                # two predicates per flag variable: its truth value and whether it is None
+                if isinstance(v, ast.Constant) and (v.value in (None, False, 0, True) or isinstance(v.value, (str, bytes, int))):
+                    self._eff[n] = {name: bool(v.value), name + ' is None': v.value is None}
                 elif isinstance(v, ast.Call) and _looks_like_object(v):
-                    self._eff[n] = {name: True}
+                    self._eff[n] = {name: True, name + ' is None': False}
                 else:
-                    self._eff[n] = {name: None}
+                    self._eff[n] = {name: None, name + ' is None': None}
             elif n.kind in ('stmt', 'for', 'with', 'except') and n.ast is not None:
                 eff = {}
                 for t in _store_targets(n):
                     eff[t] = None
+                    eff[t + ' is None'] = None
                 if eff:
                     self._eff[n] = eff
         # predicates over self.* do not survive a call on self / super / a wait (state may change)
@@ -494,7 +496,9 @@ class Tracker(object):
         if isinstance(expr, ast.Compare) and len(expr.ops) == 1 and isinstance(expr.left, ast.Name) \
                 and isinstance(expr.comparators[0], ast.Constant) and expr.comparators[0].value is None:
             if isinstance(expr.ops[0], ast.Is):
-                return None     # `x is None` is not the same predicate as truthiness
+                return (expr.left.id + ' is None', True)
+            if isinstance(expr.ops[0], ast.IsNot):
+                return (expr.left.id + ' is None', False)
         # generic predicate: no operand is ever assigned in the function, no call inside
         for x in ast.walk(expr):
             if isinstance(x, ast.Call):
